@@ -31,6 +31,7 @@ ScaleSeq == [i \in 1..NA |-> [fn |-> 1, arg |-> i, cut |-> i = 1]]
             \o <<[fn |-> 1, arg |-> 1, cut |-> TRUE], [fn |-> 1, arg |-> (Scale + 1) \div 2, cut |-> FALSE], [fn |-> 1, arg |-> Scale, cut |-> FALSE]>>
             \o [i \in 1..4 |-> [fn |-> 1, arg |-> Scale + i, cut |-> FALSE]]
             \o <<[fn |-> 2, arg |-> 1, cut |-> FALSE], [fn |-> 2, arg |-> 1, cut |-> FALSE], [fn |-> 1, arg |-> 1, cut |-> TRUE]>>
+            \o <<[fn |-> 6, arg |-> 1, cut |-> TRUE], [fn |-> 7, arg |-> 1, cut |-> FALSE], [fn |-> 6, arg |-> 1, cut |-> FALSE], [fn |-> 7, arg |-> 2, cut |-> FALSE]>>
 Tagged == <<[r |-> "tagged"]>>
 Funcs == << [name |-> S("f"), cacheable |-> TRUE, suspend |-> 0, script |-> Tagged],
             [name |-> S("g"), cacheable |-> FALSE, suspend |-> 0, script |-> Tagged],
@@ -38,12 +39,17 @@ Funcs == << [name |-> S("f"), cacheable |-> TRUE, suspend |-> 0, script |-> Tagg
             \* e: its second invocation fails with an error that is itself a library error value
             [name |-> S("e"), cacheable |-> FALSE, suspend |-> 0, script |-> <<[r |-> "tagged"], [r |-> "failtype"], [r |-> "tagged"]>>],
             \* z: cacheable, returns None (a cached None is a cached result like any other)
-            [name |-> S("z"), cacheable |-> TRUE, suspend |-> 0, script |-> <<[r |-> "v", v |-> VNone]>>] >>
+            [name |-> S("z"), cacheable |-> TRUE, suspend |-> 0, script |-> <<[r |-> "v", v |-> VNone]>>],
+            \* two stateless functions (the harness implements them as unit structs, as the documentation's examples are
+            \* written): cacheable, pure, different results on the same argument.  Used by the long history only.
+            [name |-> S("zdouble"), cacheable |-> TRUE, suspend |-> 0, script |-> <<[r |-> "double"]>>],
+            [name |-> S("znegate"), cacheable |-> TRUE, suspend |-> 0, script |-> <<[r |-> "negate"]>>] >>
 NF == Len(Funcs)
+NFX == 5          \* the exhaustive universe draws from the first five
 
 Init == c = IF Scale > 0 THEN ScaleSeq ELSE <<>>
 Next == /\ Scale = 0 /\ Len(c) < MaxCalls
-        /\ \E f \in 1..NF, a \in 1..NArgs, cut \in BOOLEAN :
+        /\ \E f \in 1..NFX, a \in 1..NArgs, cut \in BOOLEAN :
              /\ (c = <<>> => cut)
              /\ c' = Append(c, [fn |-> f, arg |-> a, cut |-> cut])
 
@@ -71,7 +77,7 @@ Log == Run.gs.calls
 \* all call sites: [ev, r, k]; everything below takes the run (outs, gs) as a parameter so that TLC
 \* evaluates it once per state
 SitesOf(G) == { [ev |-> e, r |-> r, k |-> k] : e \in 1..NEvals, r \in 1..Len(G), k \in 1..MaxK }
-Live(run, G, s) == s.k <= Len(G[s.r]) /\ run.outs[s.ev][s.r].o.ok /\ G[s.r][s.k].fn # 5      \* (z's results are not tagged)
+Live(run, G, s) == s.k <= Len(G[s.r]) /\ run.outs[s.ev][s.r].o.ok /\ G[s.r][s.k].fn < 5      \* (z's results are not tagged)
 SiteFn(G, s) == Funcs[G[s.r][s.k].fn]
 SiteArg(G, s) == Args[G[s.r][s.k].arg]
 SiteRes(run, s) == run.outs[s.ev][s.r].o.v.xs[s.k]           \* [arg, n]
